@@ -21,6 +21,22 @@ type SCtx struct {
 	pkg      *types.Package
 	locals   bool // may refer to named locals of e.fn
 	depth    int
+	inQuant  bool
+}
+
+// loaded: a value read from the heap of state sc.st satisfies the type facts of that state (all stored
+// references are below the state's allocation mark, lengths are non-negative, ...).
+func (sc *SCtx) loaded(v Term, t types.Type) Term {
+	if sc.inQuant || t == nil {
+		return v
+	}
+	fact := sc.e.typeAssume(v, t, sc.st.hwm)
+	if fact.S == "true" {
+		return v
+	}
+	d := sc.e.def("sv", v)
+	sc.e.assume(sc.st.reach, sc.e.typeAssume(d, t, sc.st.hwm))
+	return d
 }
 
 func (e *Enc) specCtx(st, old *State) *SCtx {
@@ -64,6 +80,10 @@ func sortOfSpecType(P *Prog, ty string, pkg *types.Package) (string, types.Type)
 		return SInt, nil // mathematical integer
 	case "Ref", "RV", "RT", "Str", "any":
 		return SInt, nil
+	case "Arr":
+		return arrSort(SInt, SInt), nil
+	case "ArrB":
+		return arrSort(SInt, SBool), nil
 	}
 	if t, err := P.resolveType(ty, pkg); err == nil {
 		return sortOf(t), t
@@ -119,6 +139,7 @@ func (sc *SCtx) eval(x SExpr) (Val, types.Type, error) {
 		return sc.call(x)
 	case SQuant:
 		n := *sc
+		n.inQuant = true
 		n.vars = map[string]Val{}
 		n.vtypes = map[string]types.Type{}
 		for k, v := range sc.vars {
@@ -370,7 +391,7 @@ func (sc *SCtx) sel(x SSel) (Val, types.Type, error) {
 		return Val{}, nil, err
 	}
 	if a.A != nil {
-		return tv(e.load(sc.st, a.A)), ft, nil
+		return tv(sc.loaded(e.load(sc.st, a.A), ft)), ft, nil
 	}
 	// nested struct / array: reference
 	return a, types.NewPointer(ft), nil
@@ -436,7 +457,7 @@ func (sc *SCtx) index(x SIndex) (Val, types.Type, error) {
 		return Val{}, nil, err
 	}
 	if a.A != nil {
-		return tv(e.load(sc.st, a.A)), et, nil
+		return tv(sc.loaded(e.load(sc.st, a.A), et)), et, nil
 	}
 	if a.T.Sort != "" && !isStructVal(et) {
 		return a, et, nil
@@ -616,6 +637,25 @@ func (sc *SCtx) call(x SCall) (Val, types.Type, error) {
 		}
 		ps := arrSort(SInt, arrSort(sortOf(u.Key()), SBool))
 		return tv(Select(e.comp(sc.st, mapPHeap(u), ps), m.T)), nil, nil
+	case "elems":
+		v, t, err := arg(0)
+		if err != nil {
+			return Val{}, nil, err
+		}
+		sl, ok := t.Underlying().(*types.Slice)
+		if !ok || isStructVal(sl.Elem()) {
+			return Val{}, nil, fmt.Errorf("elems() needs a slice of scalars")
+		}
+		e.declSlice()
+		es := sortOf(sl.Elem())
+		return tv(Select(e.comp(sc.st, "E:"+es, arrSort(SInt, arrSort(SInt, es))), app(SInt, "sl_base", v.T))), nil, nil
+	case "base", "off":
+		v, _, err := arg(0)
+		if err != nil {
+			return Val{}, nil, err
+		}
+		e.declSlice()
+		return tv(app(SInt, "sl_"+x.Fun, v.T)), nil, nil
 	case "ite":
 		c, _, err := arg(0)
 		if err != nil {
